@@ -105,9 +105,11 @@ def analyze(ctx, want):
                 src, dst = f1[1][1], f2[1][1]
                 pre_ok = S.fstr(f1[1][0]).lstrip("&*") == "node_prefix" and S.fstr(f2[1][0]).lstrip("&*") == "node_prefix"
                 # src = index of the outer item (enumerate), dst = .1 of the inner item
-                so = re.match(r"(item@bb\d+)\.0$", S.fstr(src))
-                do = re.match(r"(item@bb\d+)\.1$", S.fstr(dst))
-                ok = pre_ok and so is not None and do is not None and so.group(1) != do.group(1)
+                # (two nested loops: item of the outer enumerate / item of the inner one; or one loop over a flat_map chain: the
+                # enumerate index of the outer element / the element of the inner iterator)
+                so = re.match(r"(item@bb\d+)\.0$|(index@bb\d+)$", S.fstr(src).lstrip("&*"))
+                do = re.match(r"(item@bb\d+(?:_in\d+)?)\.1$", S.fstr(dst).lstrip("&*"))
+                ok = pre_ok and so is not None and do is not None and (so.group(1) or so.group(2)) != do.group(1)
                 if ok and lab is not None and len(lab[1]) == 2:
                     cid = S.fstr(lab[1][1])
                     ccs = S.fstr(lab[1][0])
@@ -132,7 +134,8 @@ def analyze(ctx, want):
     # one walk over all states for the nodes, one for the edges (by index range or by enumerate), and one over the transitions
     # of the state at hand
     over_states = {bb_ for bb_, s_ in ls if "compiled_dfa.states" in s_ and "transitions" not in s_}
-    ok = len(over_states) >= 2 and any("transitions" in s_ for s_ in srcs)
+    trans_in_closure = any((af[1] == "transitions") for c_ in F.closures_of(rd) for bb_, i_, st_ in c_.assigns() for pl_ in M.rvalue_places(st_["rv"]) for af in M.place_fields(pl_))
+    ok = len(over_states) >= 2 and (any("transitions" in s_ for s_ in srcs) or trans_in_closure)
     ob("C18.a", "loops-range-over-all-states-and-transitions", ok, "loop sources: %s" % srcs, rd.loc())
     # an edge is drawn on every iteration of the transition loop: no conditional before it
     inner = [h for h, b in rd.natural_loops().items() if not any(h2 != h and h2 in b for h2 in rd.natural_loops())]
@@ -156,8 +159,8 @@ def analyze(ctx, want):
                 cl = p.calls(r"Scope::<.*>::cluster$")
                 sl = [e for e in p.events if e[0] == "call" and re.search(r"::set_label$", e[2]) and "cluster" in S.fstr(argval(e, 0))]
                 lab = fmt_parts(argval(sl[-1], 1), ex, p) if sl else None
-                okc = it is not None and fp is not None and len(fp[1]) == 1 and S.fstr(fp[1][0]) == it.group(1) + ".0" and "_" in fp[0] and len(cl) >= 1
-                okl = lab is not None and len(lab[1]) == 2 and S.fstr(lab[1][0]) == (it.group(1) + ".0" if it else "?") and "LA for T" in lab[0]
+                okc = it is not None and fp is not None and len(fp[1]) == 1 and S.fstr(fp[1][0]).lstrip("&*") == it.group(1) + ".0" and "_" in fp[0] and len(cl) >= 1
+                okl = lab is not None and len(lab[1]) == 2 and S.fstr(lab[1][0]).lstrip("&*") == (it.group(1) + ".0" if it else "?") and "LA for T" in lab[0]
                 pol = [(cc, o) for cc, o in p.conds if cc[0] == "field" and cc[2] == "is_positive"]
                 okp = False
                 if lab is not None and len(lab[1]) == 2 and pol:
